@@ -407,6 +407,45 @@ Fixpoint desired_map (cs : list (option json)) (m : umap) : option umap :=
 Definition uobjects (m : umap) : list json :=
   flat_map (fun g => match g with (_, _, os) => map snd os end) m.
 
+(* everything after the hook answered: finalizer removal, label invariant,
+   children, status *)
+Definition finish_sync (c : ccfg) (parent : json) (observed : umap) (r : hook_resp) : prog sync_result :=
+  match desired_map (hr_children r) [] with
+  | None => Ret SPanic
+  | Some desired0 =>
+      _ <~ (if positive_number (hr_resync r) then note "resync" (hr_resync r) else Ret tt) ;;
+      pr <~ (if hr_finalized r
+             then atomic_update retry_steps (p_res c) (eff_ns (p_namespaced c) (get_ns parent))
+                    (get_name parent) (get_uid parent) false (remove_finalizer (finalizer_name c))
+             else Ret (ROk parent)) ;;
+      match pr with
+      | RErr _ => Ret SErr
+      | ROk parent =>
+          match make_selector c parent with
+          | None => Ret SErr
+          | Some sel =>
+              match enforce_labels c parent sel (uobjects desired0) with
+              | None => Ret SErr
+              | Some ds =>
+                  let desired := fold_left (fun m o => uinsert o m) ds [] in
+                  failed <~ (if negb (is_deleting parent) || should_finalize c parent
+                             then manage_children c parent observed desired
+                             else Ret false) ;;
+                  sr <~ update_parent_status c parent (hr_status r) ;;
+                  match sr with
+                  | RErr ENotFound | RErr EConflict => Ret SDone
+                  | RErr _ => Ret SErr
+                  | ROk _ => Ret (if failed then SErr else SDone)
+                  end
+              end
+          end
+      end
+  end.
+
+(* syncRevisions for controllers without a rolling strategy: one hook call *)
+Definition hook_phase (c : ccfg) (k : cache) (parent : json) (observed : umap) : prog hook_result :=
+  call_hook c parent observed [].
+
 Definition sync_parent_object (c : ccfg) (k : cache) (parent : json) : prog sync_result :=
   if ignores_parent c parent then Ret SDone else
   fr <~ sync_finalizer c parent ;;
@@ -418,42 +457,11 @@ Definition sync_parent_object (c : ccfg) (k : cache) (parent : json) : prog sync
       match oc with
       | None => Ret SErr
       | Some observed =>
-          hr <~ call_hook c parent observed [] ;;
+          hr <~ hook_phase c k parent observed ;;
           match hr with
           | HRNone | HRErr => Ret SErr
           | HR429 n => Ret (SRequeue n)
-          | HRResp r =>
-              match desired_map (hr_children r) [] with
-              | None => Ret SPanic
-              | Some desired0 =>
-                  _ <~ (if positive_number (hr_resync r) then note "resync" (hr_resync r) else Ret tt) ;;
-                  pr <~ (if hr_finalized r
-                         then atomic_update retry_steps (p_res c) (eff_ns (p_namespaced c) (get_ns parent))
-                                (get_name parent) (get_uid parent) false (remove_finalizer (finalizer_name c))
-                         else Ret (ROk parent)) ;;
-                  match pr with
-                  | RErr _ => Ret SErr
-                  | ROk parent =>
-                      match make_selector c parent with
-                      | None => Ret SErr
-                      | Some sel =>
-                          match enforce_labels c parent sel (uobjects desired0) with
-                          | None => Ret SErr
-                          | Some ds =>
-                              let desired := fold_left (fun m o => uinsert o m) ds [] in
-                              failed <~ (if negb (is_deleting parent) || should_finalize c parent
-                                         then manage_children c parent observed desired
-                                         else Ret false) ;;
-                              sr <~ update_parent_status c parent (hr_status r) ;;
-                              match sr with
-                              | RErr ENotFound | RErr EConflict => Ret SDone
-                              | RErr _ => Ret SErr
-                              | ROk _ => Ret (if failed then SErr else SDone)
-                              end
-                          end
-                      end
-                  end
-              end
+          | HRResp r => finish_sync c parent observed r
           end
       end
   end.
